@@ -179,6 +179,19 @@ def w_fixed_image(pid, tier, seed, job):
         ctx.count("image_names", ("cdda-fixed", tuple(titles)), nontrivial=True)
         with R.TempImage(R.cue_text("t.bin", tracks).encode("ascii"), "t.cue", {"t.bin": bytes(2352 * (len(titles) + 1))}) as path:
             export_confined(ctx, path, case)
+    elif job == 2:
+        # the same stored names as FILE in one partition and as DIRECTORY in the other, in both traversal orders
+        # (a directory's export name gets a character appended when it would end in '.' or '-'; a file's does not)
+        names = ["AB..", "X-", "Q.", "Z. .", "P+-"]
+        fa = [AW.SampleFile(name=f, pcm=struct.pack("<4h", i, i, i, i)) for i, f in enumerate(names[:3])]
+        fb = [AW.SampleFile(name=f, pcm=struct.pack("<4h", 9, i, i, i)) for i, f in enumerate(names[3:])]
+        pa = AW.Partition([AW.Volume("V", fa)] + [AW.Volume(n, [AW.SampleFile(name="S", pcm=struct.pack("<2h", 1, k))]) for k, n in enumerate(names[3:])], size_sectors=48)
+        pb = AW.Partition([AW.Volume(n, [AW.SampleFile(name="S", pcm=struct.pack("<2h", 2, k))]) for k, n in enumerate(names[:3])] + [AW.Volume("W", fb)], size_sectors=48)
+        img = AW.image_bytes([pa, pb])
+        case = {"kind": "akai", "partitions": [[(v.name, [f.name for f in v.files]) for v in p.volumes] for p in (pa, pb)], "d6_shape": False}
+        ctx.count("image_names", ("akai-file-then-directory", tuple(names)), nontrivial=True)
+        with R.TempImage(img) as path:
+            export_confined(ctx, path, case)
     else:
         fn = ["FX", "FX.WAV", "KICK.WAV", "KICK", "A.WAV L", "A.WAV R"]
         files = [AW.SampleFile(name=f, pcm=struct.pack("<4h", i, i, i, i)) for i, f in enumerate(fn)]
@@ -261,7 +274,7 @@ def run(ctx):
     jobs += [(True, c) for c in chunks(rnd, 300)]
     jobs += [(False, c) for c in chunks(rnd[::4], 300)]
     F.pmap(ctx, w_func, jobs)
-    F.pmap(ctx, w_fixed_image, [0, 1])
+    F.pmap(ctx, w_fixed_image, [0, 1, 2])
     F.pmap(ctx, w_image, [ctx.seed * 4099 + i for i in range(24 if ctx.quick else 300)])
     ctx.exhaustive = True
 
